@@ -422,6 +422,9 @@ func (txn MapTxn[K, V]) Commit() (m Map[K, V]) {
 		m.singleton = &kv
 	default:
 		m.tree = txn.txn.Commit()
+		// The transaction can still be used after Commit(), so it must not be
+		// handed out for reuse by the next Txn() on the committed tree.
+		m.tree.prevTxn.CompareAndSwap(txn.txn, nil)
 		m.hasTree = true
 	}
 	if m.singleton != nil {
